@@ -193,3 +193,65 @@ func c18RemoteOwnersTold(a *Anchors, r *core.Report) {
 		r.Bad(rule, key, fname(f), p.Pos(cleanup.Pos()), inst, fmt.Sprintf("link list -> UnlinkEvent: %v, monitor list -> DemonitorEvent: %v — the owner's node keeps counting a subscriber that no longer exists: its producer never gets MessageEventStop while the connection stays", okL, okM))
 	}
 }
+
+// initBeforePublish: an object that other goroutines find through a shared table (sync.Map
+// Store / LoadOrStore of a pointer to a struct allocated in the same function) is complete when it
+// is entered: no plain store to one of its fields is reachable after the publication. A reader that
+// finds the entry in between sees the zero value — for an event's token that is a publisher check
+// that the zero reference passes; it is also a data race.
+func initBeforePublish(p *load.Program, r *core.Report, rule, rid string, floor int, pkgs []string, onlyTable func(string) bool) {
+	r.Floor(rule, floor)
+	for _, f := range funcsOfPkgs(p, pkgs...) {
+		seq := 0
+		eachInstr(f, func(in ssa.Instruction) {
+			c, ok := in.(*ssa.Call)
+			if !ok {
+				return
+			}
+			m, okm := syncMapCall(c.Common())
+			if !okm || (m != "Store" && m != "LoadOrStore") || len(c.Common().Args) < 3 {
+				return
+			}
+			_, path, okp := fieldPath(c.Common().Args[0])
+			if !okp || len(path) == 0 {
+				return
+			}
+			table := path[len(path)-1]
+			if onlyTable != nil && !onlyTable(table) {
+				return
+			}
+			obj, isAlloc := stripIface(c.Common().Args[2]).(*ssa.Alloc)
+			if !isAlloc || !obj.Heap {
+				return
+			}
+			if derefStruct(obj.Type()) == nil {
+				return
+			}
+			seq++
+			fn := fname(f)
+			key := fmt.Sprintf("%s|%s|%s#%d", rid, fn, table, seq)
+			inst := "the object entered into table '" + table + "' is not written to after it became reachable"
+			var late ssa.Instruction
+			lateField := ""
+			eachInstr(f, func(x ssa.Instruction) {
+				st, ok := x.(*ssa.Store)
+				if !ok {
+					return
+				}
+				fa, ok := st.Addr.(*ssa.FieldAddr)
+				if !ok || fa.X != ssa.Value(obj) {
+					return
+				}
+				if instrReachable(in, x) {
+					late = x
+					lateField = derefStruct(obj.Type()).Field(fa.Field).Name()
+				}
+			})
+			if late == nil {
+				r.OK(rule, key, fn, p.Pos(in.Pos()), inst, "no field store is reachable from the publication")
+			} else {
+				r.Bad(rule, key, fn, p.Pos(late.Pos()), inst, "field '"+lateField+"' is assigned after the entry can be found by others: a reader in between sees its zero value (and the accesses race)")
+			}
+		})
+	}
+}
